@@ -197,6 +197,9 @@ func (w *World) VerifyFunc(fi *FuncInfo, c *Contract, opts VerifyOpts) (res *Uni
 	})
 	if opts.Closure == 0 {
 		ex.remapLoopOrdinals(body)
+		if c != nil && len(c.Loops) > 0 && !c.Emitted {
+			ex.remapMovedLoops(fi, body)
+		}
 	}
 	defer func() {
 		if r := recover(); r != nil {
